@@ -181,11 +181,19 @@ EXPANDERS = ["Fock.expand", "Polarization.expand", "CustomState.expand", "Envelo
 PRODUCT_FUNCS = {"outer", "dot", "matmul", "kron"}
 
 
-def _mentions_self_state(e: ast.AST, fn: ast.FunctionDef, depth: int = 0) -> bool:
+def _mentions_self_state(e: ast.AST, fn: ast.FunctionDef, depth: int = 0, cfg: Optional[CFG] = None, at: Optional[ast.AST] = None) -> bool:
     for n in [e] + list(ast.walk(e)):
         if isinstance(n, ast.Attribute) and n.attr == "state" and src(n.value) == "self":
             return True
         if isinstance(n, ast.Name) and depth < 2:
+            if cfg is not None and at is not None:
+                node = cfg.node_containing(at)
+                if node is not None:
+                    for d in cfg.reaching_defs(node, n.id):
+                        v = getattr(d.ast, "value", None) if d is not cfg.entry else None
+                        if v is not None and _mentions_self_state(v, fn, depth + 1, cfg, d.ast):
+                            return True
+                continue
             v = single_def_value(fn, n.id)
             if v is not None and _mentions_self_state(v, fn, depth + 1):
                 return True
@@ -203,6 +211,7 @@ def outer(repo: Repo) -> List[Ob]:
     for q in EXPANDERS:
         fi = repo.func(q)
         prods = []
+        cfg = CFG(fi.node)
         for n in walk_no_nested(fi.node):
             fa = None
             if isinstance(n, ast.Call) and call_np(n) in PRODUCT_FUNCS and len(n.args) == 2:
@@ -211,7 +220,7 @@ def outer(repo: Repo) -> List[Ob]:
                 fa = (n.left, n.right, "@")
             elif isinstance(n, ast.Call) and call_np(n) == "einsum" and len(n.args) == 3:
                 fa = (n.args[1], n.args[2], "einsum")
-            if fa and _mentions_self_state(fa[0], fi.node) and _mentions_self_state(fa[1], fi.node):
+            if fa and _mentions_self_state(fa[0], fi.node, 0, cfg, n) and _mentions_self_state(fa[1], fi.node, 0, cfg, n):
                 prods.append((n, fa))
         if not prods:
             raise AnalysisError(f"OUTER: no ket x bra product found in {q}")
@@ -372,6 +381,16 @@ def tag(repo: Repo) -> List[Ob]:
                 (obs.append(ok("TAG", fi, f"members={lname}", ("C07",), node.ast, "members receive the same tag")) if blk_ok else
                  obs.append(bad("TAG", fi, f"members={lname}", ("C07",), node.ast,
                                 f"the product space is tagged {lname} but no `for s in self.state_objs: s.expansion_level = {lname}` accompanies it: members report a stale level")))
+    # nothing but the setter (and __init__) writes Envelope._expansion_level directly: that would skip the member propagation
+    env = repo.cls("Envelope")
+    for mname, m in env.methods.items():
+        if mname == "__init__":
+            continue
+        for x in walk_no_nested(m.node):
+            if isinstance(x, ast.Attribute) and x.attr == "_expansion_level" and isinstance(x.ctx, ast.Store) and src(x.value) == "self":
+                obs.append(bad("TAG", m, "setter-bypassed", ("C07",), x,
+                               "Envelope._expansion_level is written directly instead of through the expansion_level setter: fock and polarization keep reporting the old level while the envelope holds data of the new one"))
+    obs.append(ok("TAG", "Envelope", "setter-not-bypassed-scan", ("C07",), None, f"{len(env.methods)} Envelope methods scanned"))
     # Envelope's setter propagates to both members
     setter = repo.func("Envelope.expansion_level.setter")
     tgt = {src(t) for n in walk_no_nested(setter.node) if isinstance(n, ast.Assign) for t in n.targets}
@@ -383,8 +402,24 @@ def tag(repo: Repo) -> List[Ob]:
     return obs
 
 
+def _purity_isclose(test: ast.AST, fn) -> Optional[bool]:
+    """jnp.isclose/allclose(<Tr rho^2>, 1, rtol=0, atol=tol): pure on the true outcome.  With the default
+    rtol=1e-5 the window is wider than the tolerance the eigenvalue selection uses -> not accepted"""
+    if isinstance(test, ast.Call) and call_np(test) in ("isclose", "allclose") and len(test.args) >= 2:
+        kw = {k.arg: k.value for k in test.keywords}
+        rt = kw.get("rtol") or (test.args[2] if len(test.args) > 2 else None)
+        if rt is not None and isinstance(rt, ast.Constant) and rt.value == 0:
+            fake = ast.Compare(left=ast.Call(func=ast.Name(id="abs", ctx=ast.Load()), args=[ast.BinOp(left=test.args[0], op=ast.Sub(), right=test.args[1])], keywords=[]),
+                               ops=[ast.Lt()], comparators=[kw.get("atol") or ast.Name(id="tol", ctx=ast.Load())])
+            return _purity_test(ast.fix_missing_locations(fake), fn)
+    return None
+
+
 def _purity_test_any(test: ast.AST, fn) -> Optional[bool]:
     """a test expression may wrap the comparison in `not`"""
+    r0 = _purity_isclose(test, fn)
+    if r0 is not None:
+        return r0
     if isinstance(test, ast.UnaryOp) and isinstance(test.op, ast.Not):
         r = _purity_test_any(test.operand, fn)
         return None if r is None else (not r)
@@ -449,7 +484,7 @@ def contract_only(repo: Repo) -> List[Ob]:
 # ----------------------------------------------------------------------------- SANDWICH
 def _sandwich_props(fi: FuncInfo) -> tuple:
     n = fi.node.name
-    return {"apply_operation": ("C01",), "apply_kraus": ("C06",), "measure_POVM": ("C09",)}.get(n, props_of(fi) if not fi.module.name.endswith("_math.ops") else ("C06",))
+    return {"apply_operation": ("C01",), "apply_kraus": ("C06",), "measure_POVM": ("C09", "C05")}.get(n, props_of(fi) if not fi.module.name.endswith("_math.ops") else ("C06",))
 
 
 def _const_str(e: ast.AST, fn: ast.FunctionDef) -> Optional[str]:
